@@ -745,6 +745,13 @@ impl Context {
         let ty = InferContext::substitute_type(ty);
         let TypedPattern { pat, .. } = pattern;
         let span = pattern.to_span();
+        // A record value is laid out in canonical (sorted) field order whatever order its type
+        // was written in: the offsets of the fields are taken from the canonical type.
+        let ty = if matches!(pat, Pattern::Record(_)) {
+            self.canonical_record_type_id(ty)
+        } else {
+            ty
+        };
         match (pat, ty.to_type()) {
             (Pattern::Placeholder, _) => {}
             (Pattern::Single(id), t) => {
